@@ -302,6 +302,8 @@ fn c01_like(tier: Tier, oracles: Oracles, with_drop: bool) -> Vec<Scenario> {
     out.push(Scenario::new("nest-m2", Cfg::default(), empty_setup.clone(), Box::new(txs_of(&nops, 2, with_drop, true)), if q { 1 } else { 2 }, oracles));
     out.push(Scenario::new("nest-small-m2", Cfg::default(), empty_setup.clone(), Box::new(txs_of(&nsmall, 2, with_drop, true)), if q { 2 } else { 3 }, oracles));
     out.push(Scenario::new("nest-small-m3", Cfg::default(), empty_setup.clone(), Box::new(txs_of(&nsmall, 3, false, true)), if q { 1 } else { 2 }, oracles));
+    // the same alphabet with bucket names, keys and values passed as String / Vec<u8> / bytes::Bytes
+    out.push(Scenario::new("nest-small-m2-owned-args", Cfg { owned_args: true, ..Cfg::default() }, empty_setup.clone(), Box::new(txs_of(&nsmall, 2, with_drop, true)), 2, oracles));
     if !q {
         out.push(Scenario::new("nest-m3", Cfg::default(), empty_setup.clone(), Box::new(txs_of(&nops, 3, false, false)), 1, oracles));
     }
@@ -315,8 +317,9 @@ fn c01_like(tier: Tier, oracles: Oracles, with_drop: bool) -> Vec<Scenario> {
     sc.extra_probes = vec![blob(""), blob("a"), blob("K*1100")];
     out.push(sc);
     // bulk: whole blocks of keys and buckets per transaction (three- and four-level trees, hundreds
-    // of buckets, free lists that need more than one page)
-    {
+    // of buckets, free lists that need more than one page); not in probing mode (C07 reads the whole
+    // bucket after every single operation, which is quadratic in the transaction length)
+    if oracles.probe_each_op.is_none() {
         let block = |b: usize, n: usize, val: &str| -> Vec<OpSpec> { (0..n).map(|i| OpSpec::put(&["bulk"], &format!("b{}-{:04}", b, i), val)).collect() };
         let del_block = |b: usize, n: usize, step: usize| -> Vec<OpSpec> { (0..n).step_by(step).map(|i| OpSpec::del(&["bulk"], &format!("b{}-{:04}", b, i))).collect() };
         let nb = if q { 1200 } else { 2500 };
